@@ -17,7 +17,7 @@ Proof. unfold add_piece. destruct (p =? NoPiece); reflexivity. Qed.
 
 Lemma make_hashes z b m : hashes (fst (make z b m)) = cur_hash (fst (make z b m)) :: hashes b.
 Proof.
-  unfold make. cbv zeta.
+  unfold make, make_l. cbv zeta.
   repeat match goal with
   | |- context [remove_piece ?z ?b ?c ?p ?s] =>
       let X := fresh "X" in
